@@ -19,4 +19,7 @@ def run(chk):
     from . import batcher
     batcher.check_consumer(chk, "C18")
     from . import state_contracts
+    state_contracts.create_checkpoint(chk, "C18", want=("C06",))   # a caller arriving after the checkpoint thread failed is refused at once (fail fast, re-check after the put): it never blocks forever
+    from . import executor_contracts as _X
+    _X.on_task_complete(chk, "C18", want=("C06", "C07"))          # a checkpoint failure inside a map / parallel branch ends as FAILED / raise, never as PENDING
     state_contracts.completion_event_contract(chk, "C18")   # a woken caller sees the failure (error stored before the event is set): a failed checkpoint never ends in SUCCEEDED  # the safety causes of "no outcome at all": every blocked caller is woken when the API fails
